@@ -20,3 +20,15 @@ package model
 //@ func ConsensusMessage.GenHash
 //@   option trusted interface
 //@   modifies nothing
+
+// ---------------------------------------------------------------------------------------------
+// Threshold of a group (used by round1.Start for both share sets; C13's arithmetic part): k = ceil(n * SSSSThreshold / 100). With n and the percentage in range the
+// float64 computation is exact (all intermediate values are integers below 2^53 or quotients by 100 of
+// such, whose rounding cannot cross an integer), so float64 is read as real arithmetic here.
+//@ func ConsensusParam.GetGroupK
+//@   property C15
+//@   option intmode=math
+//@   requires p != nil && max >= 0 && max <= 100000 && p.SSSSThreshold >= 1 && p.SSSSThreshold <= 100
+//@   ensures [ceil]   result*100 >= max*p.SSSSThreshold && (result-1)*100 < max*p.SSSSThreshold
+//@   ensures [range]  result >= 0 && result <= max
+//@   modifies nothing
